@@ -35,6 +35,7 @@ ok_out=$(eval "$runline" 2>&1); ok_rc=$?
 rm -f $pkgdir/zz_seed_${id}_test.go
 echo "$id: demo with mutant rc=$mut_rc ; without rc=$ok_rc"
 if [ $mut_rc = 0 ] || [ $ok_rc != 0 ]; then echo "$id: NOT CONFIRMED"; echo "--- with mutant:"; echo "$mut_out" | tail -5; echo "--- without:"; echo "$ok_out" | tail -5; exit 4; fi
+[ -f $src/notes.md ] || { echo "$id: deliverables incomplete (no notes.md yet)"; exit 5; }
 d=/verif/seeded/$id; mkdir -p $d
 cp $src/patch.diff $d/patch.diff; cp $src/demo_test.go $d/demo_test.go; cp $src/notes.md $d/notes.md 2>/dev/null
 python3 - "$id" "$prop" "$pkgdir" "$runline" <<'PY'
